@@ -1,7 +1,9 @@
 use crate::driver::*;
 
+pub mod c01;
 pub mod c03;
 pub mod c04;
+pub mod c05;
 pub mod c06;
 pub mod c07;
 
@@ -18,8 +20,10 @@ pub fn dispatch(ctx: &Ctx, replay_file: Option<&str>) -> i32 {
         }};
     }
     match ctx.id.as_str() {
+        "C01" => prop!(c01),
         "C03" => prop!(c03),
         "C04" => prop!(c04),
+        "C05" => prop!(c05),
         "C06" => prop!(c06),
         "C07" => prop!(c07),
         other => {
